@@ -13,6 +13,11 @@ entries = {}
 for f in sorted(glob.glob(os.path.join(V, "tools/manifest_entries/C*.json"))):
     e = json.load(open(f))
     entries[e["property_id"]] = e
+# only properties whose check I have integrated and seen pass are registered
+en_path = os.path.join(V, "tools/manifest_entries/ENABLED.txt")
+if os.path.exists(en_path):
+    enabled = set(open(en_path).read().split())
+    entries = {k: v for k, v in entries.items() if k in enabled}
 nc_path = os.path.join(V, "tools/manifest_entries/NOT_CLAIMED.json")
 not_claimed = json.load(open(nc_path)) if os.path.exists(nc_path) else {}
 
